@@ -5,6 +5,10 @@ import Nq.Spec.Users
 namespace Nq.Lemmas.Users
 open Nq Nq.Users Nq.Spec.Users Nq.Gen.Lspawn
 
+/-- the model's argv layout is the one written down from qmail-local(8) in the spec -/
+theorem specArgv_eq (env : Env) (id : Ident) (loc dom sender : Bytes) :
+    specArgv env id loc dom sender = argvOf env id loc dom sender := rfl
+
 /-- events none of which is a top-level execv of qmail-local -/
 def Quiet (l : List Ev) : Prop := ∀ e ∈ l, isExecLocal e = false
 
@@ -88,8 +92,8 @@ theorem dropAndExec_traceOk (env : Env) (flt : Fault) (id : Ident) (loc dom send
         · simp [hu, traceOk, execOk]
         · simp only [hu, if_false]
           split
-          · simp [traceOk, execOk, execGuarded, hu]
-          · split <;> simp [traceOk, execOk, execGuarded, hu]
+          · simp [traceOk, execOk, execGuarded, hu, specArgv_eq]
+          · split <;> simp [traceOk, execOk, execGuarded, hu, specArgv_eq]
 
 theorem guardedAny_of_quiet (l pre : List Ev) (h : Quiet l) : guardedAny pre l = true := by
   have := guardedAny_quiet l pre [] h
